@@ -212,6 +212,17 @@ CHECKS = {
         note=TRUSTED + " Two signatures of the documented MachineCombiners limitation (no error recovery) are recorded in known_findings.jsonl. The vsched two-task shared-combiner scenario of the design was not needed: the wedge was reached by the matrix.",
         design_ref="§5 C06",
     ),
+    "C13": dict(
+        category="fault_enumeration",
+        technique="enumeration of cache programs x every subset of pre-existing shard files x every file-operation fault (fail, partial write, crash) on an in-memory fault-injecting file system, followed by a second run on the files left behind",
+        text=("16 (quick) / 19 (thorough) programs place Cache, CachePartial and ReadCache at the head, in the middle, before and after a shuffle and under Head (3 shards); user functions count their invocations per shard. For every program and both "
+              "executors: every subset of the 3 shard files pre-existing; an upstream failure at every (shard,row); and, from the recorded failure-free history of file operations on the vfs:// volume, EVERY operation label failed, failed after a partial "
+              "write, or crashed (process death: pending files vanish) - single faults for all programs, ordered pairs for the smallest; after each first run a second run in a fresh session on the files left behind. Oracle: a successful run yields the "
+              "uncached rows; after a completed run the second run makes ZERO upstream calls for cached shards (Cache: all or nothing; CachePartial: per shard); every file under the prefix is absent or a complete zstd frame that decodes, with the "
+              "implementation's own reader, to exactly that shard's rows; a run without faults never fails because of a file an earlier run left."),
+        note=TRUSTED + " vfs models close-commit atomicity of real file implementations. Fault pairs only for the 1-2 smallest programs; machine loss combined with caching belongs to C02.",
+        design_ref="§4 E3, §5 C13",
+    ),
 }
 
 NOT_YET = "check designed in DESIGN.md §5 but not yet built/validated in this tree; not claimed"
